@@ -86,6 +86,11 @@ fn abort(stream: TcpStream, rst: bool) {
 
 /// Connects with a hand-driven websocket and handshake; aborts at `at` (FIN or RST).
 pub async fn raw_connect(addr: std::net::SocketAddr, key: u8, at: AbortAt, rst: bool) -> RawOutcome {
+    raw_connect_opts(addr, key, at, rst, true).await
+}
+
+/// As [`raw_connect`]; with `ping == false` the client returns as soon as it read the confirmation.
+pub async fn raw_connect_opts(addr: std::net::SocketAddr, key: u8, at: AbortAt, rst: bool, ping: bool) -> RawOutcome {
     let stream = match TcpStream::connect(addr).await {
         Ok(s) => s,
         Err(e) => return RawOutcome::Failed(format!("tcp connect: {e}")),
@@ -142,6 +147,9 @@ pub async fn raw_connect(addr: std::net::SocketAddr, key: u8, at: AbortAt, rst: 
         other => return RawOutcome::Failed(format!("handshake ended with {other:?}")),
     }
     maybe_abort!(AbortAt::AfterConfirm);
+    if !ping {
+        return RawOutcome::Connected(RawClient { ws });
+    }
     if ws.send(Message::binary(memrelay::encode_ping([9; 8]))).await.is_err() {
         return RawOutcome::Failed("send ping".into());
     }
